@@ -235,6 +235,7 @@ def check_process_polygon(ctx, rep, rules=('S-fill', 'W-left', 'W-collapsed', 'W
                 conds['order'] = ({'le': 'lt', 'ge': 'gt'}.get(x[1], x[1]), x[2], x[3], c[1])
         if 'collapsed' not in conds and filter_skips_collapsed(ctx, rep, p):
             conds['collapsed'] = False
+            rep.ob(R_COLL, 'collapsed-edge-skipped', True, 'collapsed edges are removed by a filter on the ring\'s lines')
         evs = new_events(p)
         pushes = [e for e in p.calls('push') if 'BinaryHeap' in e['callee']]
         stores = [e for e in p.events if e['k'] == 'store']
